@@ -2,7 +2,7 @@
 import ast
 
 from .core import AnalysisError, src, qualname_of, enclosing_function, parents
-from .pysym import SymExec, show, subterms
+from .pysym import SymExec, show, subterms, guards_of
 from .rules_pyx import N, C, A, MUTATORS
 from . import symcat as sc
 
@@ -201,7 +201,28 @@ class Purity(object):
             f = mod.get(callee_t[1], required=False)
             if isinstance(f, ast.FunctionDef):
                 return mod, f
+        if callee_t[0] == 'attr' and callee_t[1][0] == 'name':
+            # self.helper(...) / Class.helper(...) of the class the function belongs to
+            node = fn
+            cls = None
+            while getattr(node, '_parent', None) is not None:
+                node = node._parent
+                if isinstance(node, ast.ClassDef):
+                    cls = node
+                    break
+            if cls is not None and callee_t[1][1] in ('self', 'cls', cls.name):
+                for s_ in cls.body:
+                    if isinstance(s_, ast.FunctionDef) and s_.name == callee_t[2]:
+                        return mod, s_
         return None
+
+    def call_params(self, cf, callee_t):
+        """parameter names in the order the call's positional arguments bind to them"""
+        ps = self.fn_params(cf)
+        if isinstance(getattr(cf, '_parent', None), ast.ClassDef) and callee_t[0] == 'attr' \
+                and 'staticmethod' not in [src(d) for d in cf.decorator_list]:
+            return ps[1:]
+        return ps
 
     def analyse(self, mod, fn, allow_self=False):
         key = (mod.rel, qualname_of(fn))
@@ -221,6 +242,8 @@ class Purity(object):
         seen = set()
         for st, out in SymExec(fn, unroll=1).run():
             for e in st.events:
+                if e[0] == 'in-comp':
+                    e = e[1:]
                 tgt = None
                 what = None
                 if e[0] == 'setattr':
@@ -246,7 +269,14 @@ class Purity(object):
                         if r is not None:
                             cm, cf = r
                             sub = self.analyse(cm, cf, allow_self)
-                            cparams = self.fn_params(cf)
+                            cparams = self.call_params(cf, f)
+                            for kw_name, kw_val in e[1][3]:
+                                if kw_name in sub:
+                                    self._mut(kw_val, 'passed to %s which mutates its parameter %s' % (cf.name, kw_name),
+                                              params, module_names, mutated, allow_self, w(e[2]), key, seen, fn)
+                            if f[0] == 'attr' and 'self' in sub and cf.args.args and cf.args.args[0].arg == 'self':
+                                self._mut(f[1], 'receiver of %s which mutates self' % cf.name, params, module_names, mutated,
+                                          allow_self, w(e[2]), key, seen, fn)
                             for i, a in enumerate(e[1][2]):
                                 if i < len(cparams) and cparams[i] in sub:
                                     self._mut(a, 'passed to %s which mutates its parameter %s' % (cf.name, cparams[i]),
@@ -453,7 +483,7 @@ def r_shape_safety(repo, rep, mod, fn, R, typed_params=None):
                 if typed_params is not None and root not in typed_params:
                     continue
                 need = 'functor' if attr in FUNCTOR_ATTRS else 'atom'
-                guards = flatten_guards(list(trace) + list(st.data.get('guards', {}).get(id(node), ())))
+                guards = flatten_guards(list(trace) + list(guards_of(st, e)))
                 n += 1
                 ok = _shape_known(v, need, guards, uni_facts)
                 k = (show(v), attr)
